@@ -110,6 +110,13 @@ Definition request_wire (ps : list (bytes * bytes)) (body : option bytes) : res 
   do pw <- params_wire 1 ps;
   Ok (begin_record 1 ++ pw ++ stream_wire T_STDIN 1 (match body with Some b => b | None => [] end)).
 
+(* a SEQUENCE of requests served by one process: every request is sent on a connection of its own, through
+   record writers created for it (FCGIClient.newWriter allocates the stream writer and its 65500-byte buffer
+   per stream) — nothing written, buffered or failed for one request is carried into the next, so the bytes of
+   the i-th request are those of the request alone, whatever the others were *)
+Definition sequence_wires (reqs : list (list (bytes * bytes) * option bytes)) : list (res bytes) :=
+  map (fun q => request_wire (fst q) (snd q)) reqs.
+
 (* ================= request side: a reference responder (FastCGI 1.0 spec, independent) ================= *)
 
 Definition decode_size (w : bytes) : option (N * bytes) :=
